@@ -2,9 +2,14 @@
    Statements only.  All numeric statements are at [ROps] (Coq's real numbers); matrices are lists of rows,
    [mget M i j] is entry (i, j), [sumR (map f (seq 0 n))] is the finite sum over i < n.  Vocabulary (Model/C04Lib.v):
    [shape n p F], [E e d p] (the matrix a unique-mapping encoding stands for), [U rws d0 d1] (the half matrix
-   sparse preload rows stand for), [enc_ok], [rows_ok], [mir]. *)
+   sparse preload rows stand for), [enc_ok], [rows_ok], [mir], [Cop c i s] (entry (i, s) of the operator carried by the
+   convolver's image frames), [frames_ok].
+   Theorems named [..._abstract] hold for ANY frame table / native noise function / pixel list that satisfies the identities
+   [frames_ok], [W_is_overlap], [wd_is_adjoint]; the section "the convolver built by Convolver.__init__" proves these three
+   identities for the real thing (rectangular mask, convolver_init m K = Ok c, native zero-filled arrays), and the theorems
+   without suffix are the resulting hypothesis-free statements about InversionImagingWTilde / InversionImagingMapping. *)
 From Coq Require Import ZArith Reals Lra Lia List Bool Arith.
-From PAV Require Import Base.Res Base.NumOps Base.Sum Model.C03 Model.C04 Model.C04Lib Proofs.C04.
+From PAV Require Import Base.Res Base.NumOps Base.Sum Model.C03 Model.C03Lib Model.C04 Model.C04Lib Proofs.C04 Proofs.C04b.
 Import ListNotations.
 Local Open Scope R_scope.
 
@@ -102,14 +107,14 @@ Proof. exact convolve_no_blurring_is_Cop. Qed.
 (* ------------------------------------------------------------------ every block of the w-tilde formalism is B_i^T N^-1 B_j *)
 (* [Bm e c n i p] = sum_s E e s p * Cop c i s: the blurred mapping matrix of a mapper, through its encoding.
    [W_is_overlap c s W n]: W[d0][d1] = sum_i Cop c i d0 * Cop c i d1 / sigma_i^2 (the overlap identity, a hypothesis here). *)
-Theorem C04_wtilde_mapper_diagonal_block : forall noise K nfs (c : @convolver ROps) s e P a b,
+Theorem C04_wtilde_mapper_diagonal_block_abstract : forall noise K nfs (c : @convolver ROps) s e P a b,
   let n := length nfs in
   W_is_overlap c s (@wt_dense ROps noise K nfs) n -> enc_ok e P -> (a < P)%nat -> (b < P)%nat ->
   let '(pre, idx, lens) := @preload ROps noise K nfs in
   mget (@curv_preload ROps pre idx lens e P) a b =
   sumR (map (fun i => Bm e c n i a * Bm e c n i b / (nth i s 0 * nth i s 0)) (seq 0 n)).
 Proof. exact wt_diag_block. Qed.
-Theorem C04_wtilde_mapper_mapper_block : forall noise K nfs (c : @convolver ROps) s e0 P0 e1 P1 a b,
+Theorem C04_wtilde_mapper_mapper_block_abstract : forall noise K nfs (c : @convolver ROps) s e0 P0 e1 P1 a b,
   let n := length nfs in
   W_is_overlap c s (@wt_dense ROps noise K nfs) n -> enc_ok e0 P0 -> enc_ok e1 P1 -> (a < P0)%nat -> (b < P1)%nat ->
   let '(pre, idx, lens) := @preload ROps noise K nfs in
@@ -136,7 +141,7 @@ Theorem C04_operated_matrix_blocks_follow_object_order : forall (c : @convolver 
 Proof. exact op_matrix_cell. Qed.
 (* the w-tilde matrix before the diagonal term: after the mirror EVERY entry is the normal-equation entry of the stacked matrix,
    whatever the order and kinds of the objects *)
-Theorem C04_wtilde_mirrored_is_normal_equations_partial : forall (c : @convolver ROps) noise K nfs objs (s : list R),
+Theorem C04_wtilde_mirrored_is_normal_equations_abstract : forall (c : @convolver ROps) noise K nfs objs (s : list R),
   (0 < length nfs)%nat -> frames_ok c (length nfs) -> (forall i, (i < length nfs)%nat -> nth i s 0 <> 0) ->
   W_is_overlap c s (@wt_dense ROps noise K nfs) (length nfs) -> (forall o, In o objs -> wf_obj c (length nfs) o) ->
   forall a b, (a < tp objs)%nat -> (b < tp objs)%nat ->
@@ -146,9 +151,8 @@ Theorem C04_wtilde_mirrored_is_normal_equations_partial : forall (c : @convolver
 Proof. exact mirrored_wt_is_normal. Qed.
 (* InversionImagingWTilde.curvature_matrix = InversionImagingMapping.curvature_matrix, entry by entry, for every ordered list of
    mappers and function lists, with or without regularization (the diagonal term included).
-   _partial: the overlap identity [W_is_overlap] and [frames_ok] for the convolver built by convolver_init are hypotheses here
-   (they are what w_tilde_curvature_value_from / frame_at_coordinates compute; checked numerically by the correspondence run). *)
-Theorem C04_curvature_wtilde_eq_mapping_partial : forall (c : @convolver ROps) noise K nfs objs (s : list R) eps a b,
+   _abstract: given the overlap identity [W_is_overlap] and [frames_ok] (proved for the real convolver below). *)
+Theorem C04_curvature_wtilde_eq_mapping_abstract : forall (c : @convolver ROps) noise K nfs objs (s : list R) eps a b,
   let n := length nfs in
   (0 < n)%nat -> frames_ok c n -> (forall i, (i < n)%nat -> nth i s 0 <> 0) ->
   W_is_overlap c s (@wt_dense ROps noise K nfs) n -> (forall o, In o objs -> wf_obj c n o) ->
@@ -186,14 +190,13 @@ Theorem C04_data_vector_mapping_blocks : forall (c : @convolver ROps) objs (d s 
   nth (off objs i + la) (@D_mapping ROps c objs d s) 0 =
   sumR (map (fun k => nth k d 0 * mget (opmat c (ob objs i)) k la / (nth k s 0 * nth k s 0)) (seq 0 n)).
 Proof. exact D_mapping_blocks. Qed.
-(* the w-tilde data vector of a mapper is the same block, given w_tilde_data = C^T N^-1 d
-   (_partial: [wd_is_adjoint] for w_tilde_data_imaging_from and the three-branch assembly are correspondence-only) *)
-Theorem C04_wtilde_data_vector_block_partial : forall (c : @convolver ROps) (d s wd : list R) e P n p,
+(* the w-tilde data vector of a mapper is the same block, given w_tilde_data = C^T N^-1 d ([wd_is_adjoint], proved below) *)
+Theorem C04_wtilde_data_vector_block_abstract : forall (c : @convolver ROps) (d s wd : list R) e P n p,
   length wd = n -> wd_is_adjoint c d s wd n -> enc_ok e P -> (p < P)%nat ->
   nth p (@dv_wtd ROps wd e P) 0 = sumR (map (fun i => nth i d 0 * Bm e c n i p / (nth i s 0 * nth i s 0)) (seq 0 n)).
 Proof. exact wt_data_vector_block. Qed.
-(* the w-tilde curvature matrix is symmetric (same hypotheses as C04_curvature_wtilde_eq_mapping_partial) *)
-Theorem C04_curvature_wtilde_symmetric_partial : forall (c : @convolver ROps) noise K nfs objs (s : list R) eps a b,
+(* the w-tilde curvature matrix is symmetric (same hypotheses as C04_curvature_wtilde_eq_mapping_abstract) *)
+Theorem C04_curvature_wtilde_symmetric_abstract : forall (c : @convolver ROps) noise K nfs objs (s : list R) eps a b,
   let n := length nfs in
   (0 < n)%nat -> frames_ok c n -> (forall i, (i < n)%nat -> nth i s 0 <> 0) ->
   W_is_overlap c s (@wt_dense ROps noise K nfs) n -> (forall o, In o objs -> wf_obj c n o) ->
@@ -202,16 +205,120 @@ Theorem C04_curvature_wtilde_symmetric_partial : forall (c : @convolver ROps) no
 Proof. exact F_wt_symmetric. Qed.
 
 (* InversionImagingWTilde.data_vector = InversionImagingMapping.data_vector, entry by entry, for every ordered list of mappers
-   (branches _data_vector_x1_mapper and _data_vector_multi_mapper), given w_tilde_data = C^T N^-1 d.
-   _partial: [wd_is_adjoint] for w_tilde_data_imaging_from is a hypothesis; lists containing function lists
-   (_data_vector_func_list_and_mapper) are correspondence-only *)
-Theorem C04_data_vector_wtilde_eq_mapping_partial : forall (c : @convolver ROps) m K objs (d s : list R) n a,
+   (branches _data_vector_x1_mapper and _data_vector_multi_mapper), given w_tilde_data = C^T N^-1 d ([wd_is_adjoint]) *)
+Theorem C04_data_vector_wtilde_eq_mapping_abstract : forall (c : @convolver ROps) m K objs (d s : list R) n a,
   forallb (@is_mapper ROps) objs = true -> length d = n -> (0 < n)%nat -> frames_ok c n ->
   length (unmasked m) = n ->
   wd_is_adjoint c d s (@wt_data ROps (@native ROps m d) (@native ROps m s) K (unmasked m)) n ->
   (forall o, In o objs -> wf_obj c n o) -> (a < tp objs)%nat ->
   nth a (@D_wt ROps c m K objs d s) 0 = nth a (@D_mapping ROps c objs d s) 0.
 Proof. exact D_wt_eq_D_mapping_mappers. Qed.
+
+(* ------------------------------------------------------------------ the convolver built by Convolver.__init__ (model C03) *)
+(* [Uat m k]: the k-th unmasked pixel in slim order; [native m v]: the zero-filled native view of a slim array;
+   [kz K a]: the kernel as a function on Z x Z, zero outside its shape; [koff K t p]: the kernel cell that carries pixel p onto t *)
+(* frames_ok: every scatter target stored in an image frame is a slim index *)
+Theorem C04_convolver_frames_ok : forall m (K : @kernel ROps) c, rectb m = true -> @convolver_init ROps m K = Ok c ->
+  length (image_frames c) = length (unmasked m) /\
+  forall s tk, In tk (nth s (image_frames c) []) -> (fst tk < length (unmasked m))%nat.
+Proof. exact init_frames_ok. Qed.
+(* the frame operator's entries: C[i, s] = K[pixel_i - pixel_s + half] inside the kernel, else 0 (signed kernels, any odd shape) *)
+Theorem C04_frame_operator_entries : forall m (K : @kernel ROps) c i s, rectb m = true -> @convolver_init ROps m K = Ok c ->
+  (i < length (unmasked m))%nat -> (s < length (unmasked m))%nat ->
+  Cop c i s = kz K (koff K (Uat m i) (Uat m s)).
+Proof. exact Cop_kz. Qed.
+(* w_tilde_data_imaging_from = C^T N^-1 d, for any noise without zeros *)
+Theorem C04_w_tilde_data_is_CT_Ninv_d : forall m (K : @kernel ROps) c (d s : list R),
+  rectb m = true -> @convolver_init ROps m K = Ok c ->
+  length d = length (unmasked m) -> length s = length (unmasked m) ->
+  (forall i, (i < length (unmasked m))%nat -> nth i s 0 <> 0) ->
+  forall k, (k < length (unmasked m))%nat ->
+  nth k (@wt_data ROps (@native ROps m d) (@native ROps m s) K (unmasked m)) 0 =
+  sumR (map (fun i => Cop c i k * (nth i d 0 / (nth i s 0 * nth i s 0))) (seq 0 (length (unmasked m)))).
+Proof. exact wt_data_is_adjoint. Qed.
+(* w_tilde_curvature_value_from between the d0-th and d1-th unmasked pixel (either order) = (C^T N^-1 C)[d0][d1],
+   for strictly positive noise (the code's `value > 0.0` test) *)
+Theorem C04_w_tilde_curvature_value_is_CT_Ninv_C : forall m (K : @kernel ROps) c (s : list R) d0 d1,
+  rectb m = true -> @convolver_init ROps m K = Ok c ->
+  length s = length (unmasked m) -> (forall i, (i < length (unmasked m))%nat -> 0 < nth i s 0) ->
+  (d0 < length (unmasked m))%nat -> (d1 < length (unmasked m))%nat ->
+  @wt_value ROps (@native ROps m s) K (Uat m d0) (Uat m d1) =
+  sumR (map (fun i => Cop c i d0 * Cop c i d1 * / (nth i s 0 * nth i s 0)) (seq 0 (length (unmasked m)))).
+Proof. exact wt_value_is_overlap. Qed.
+(* w_tilde_curvature_imaging_from (the dense matrix) = C^T N^-1 C *)
+Theorem C04_w_tilde_curvature_is_CT_Ninv_C : forall m (K : @kernel ROps) c (s : list R),
+  rectb m = true -> @convolver_init ROps m K = Ok c ->
+  length s = length (unmasked m) -> (forall i, (i < length (unmasked m))%nat -> 0 < nth i s 0) ->
+  forall d0 d1, (d0 < length (unmasked m))%nat -> (d1 < length (unmasked m))%nat ->
+  mget (@wt_dense ROps (@native ROps m s) K (unmasked m)) d0 d1 =
+  sumR (map (fun i => Cop c i d0 * Cop c i d1 * / (nth i s 0 * nth i s 0)) (seq 0 (length (unmasked m)))).
+Proof. exact wt_dense_is_overlap. Qed.
+
+(* ------------------------------------------------------------------ the two formalisms agree (no hypotheses left) *)
+(* mapper diagonal / mapper-mapper blocks computed from the real preload of the dataset *)
+Theorem C04_wtilde_mapper_diagonal_block : forall m (K : @kernel ROps) c, rectb m = true -> @convolver_init ROps m K = Ok c ->
+  forall (s : list R) e P a b, let n := length (unmasked m) in
+  length s = n -> (forall i, (i < n)%nat -> 0 < nth i s 0) -> enc_ok e P -> (a < P)%nat -> (b < P)%nat ->
+  let '(pre, idx, lens) := @preload ROps (@native ROps m s) K (unmasked m) in
+  mget (@curv_preload ROps pre idx lens e P) a b =
+  sumR (map (fun i => Bm e c n i a * Bm e c n i b / (nth i s 0 * nth i s 0)) (seq 0 n)).
+Proof. exact wt_diag_block_full. Qed.
+Theorem C04_wtilde_mapper_mapper_block : forall m (K : @kernel ROps) c, rectb m = true -> @convolver_init ROps m K = Ok c ->
+  forall (s : list R) e0 P0 e1 P1 a b, let n := length (unmasked m) in
+  length s = n -> (forall i, (i < n)%nat -> 0 < nth i s 0) -> enc_ok e0 P0 -> enc_ok e1 P1 -> (a < P0)%nat -> (b < P1)%nat ->
+  let '(pre, idx, lens) := @preload ROps (@native ROps m s) K (unmasked m) in
+  mget (@off_diag ROps pre idx lens e0 P0 e1 P1) a b =
+  sumR (map (fun i => Bm e0 c n i a * Bm e1 c n i b / (nth i s 0 * nth i s 0)) (seq 0 n)).
+Proof. exact wt_off_block_full. Qed.
+(* after the mirror every entry of the w-tilde matrix is the normal-equation entry of the stacked operated matrix *)
+Theorem C04_wtilde_mirrored_is_normal_equations : forall m (K : @kernel ROps) c, rectb m = true -> @convolver_init ROps m K = Ok c ->
+  forall objs (s : list R), let n := length (unmasked m) in
+  (0 < n)%nat -> length s = n -> (forall i, (i < n)%nat -> 0 < nth i s 0) -> (forall o, In o objs -> wf_obj c n o) ->
+  forall a b, (a < tp objs)%nat -> (b < tp objs)%nat ->
+  let noise := @native ROps m s in let nfs := unmasked m in
+  shape (tp objs) (tp objs) (@F_wt_pre ROps c (fst (fst (@preload ROps noise K nfs))) (snd (fst (@preload ROps noise K nfs))) (snd (@preload ROps noise K nfs)) objs s) /\
+  mget (mirrored (@F_wt_pre ROps c (fst (fst (@preload ROps noise K nfs))) (snd (fst (@preload ROps noise K nfs))) (snd (@preload ROps noise K nfs)) objs s)) a b
+  = Snorm (op_matrix c objs n) s n a b.
+Proof. exact mirrored_wt_is_normal_full. Qed.
+(* InversionImagingWTilde.curvature_matrix = InversionImagingMapping.curvature_matrix, entry by entry: any rectangular mask, any odd
+   kernel (any shape, any signs) whose footprint stays inside the frame (convolver_init = Ok), strictly positive noise, any ordered
+   list of mappers and function lists, with or without regularization (diagonal term included) *)
+Theorem C04_curvature_wtilde_eq_mapping : forall m (K : @kernel ROps) c, rectb m = true -> @convolver_init ROps m K = Ok c ->
+  forall objs (s : list R) eps a b, let n := length (unmasked m) in
+  (0 < n)%nat -> length s = n -> (forall i, (i < n)%nat -> 0 < nth i s 0) -> (forall o, In o objs -> wf_obj c n o) ->
+  (a < tp objs)%nat -> (b < tp objs)%nat ->
+  mget (@F_wt ROps c m K objs s eps) a b = mget (@F_mapping ROps c objs n s eps) a b.
+Proof. exact F_wt_eq_F_mapping_full. Qed.
+Theorem C04_curvature_wtilde_symmetric : forall m (K : @kernel ROps) c, rectb m = true -> @convolver_init ROps m K = Ok c ->
+  forall objs (s : list R) eps a b, let n := length (unmasked m) in
+  (0 < n)%nat -> length s = n -> (forall i, (i < n)%nat -> 0 < nth i s 0) -> (forall o, In o objs -> wf_obj c n o) ->
+  (a < tp objs)%nat -> (b < tp objs)%nat ->
+  mget (@F_wt ROps c m K objs s eps) a b = mget (@F_wt ROps c m K objs s eps) b a.
+Proof. exact F_wt_symmetric_full. Qed.
+(* the w-tilde data vector of one mapper (w_tilde_data_imaging_from then data_vector_via_w_tilde_data_imaging_from) = B^T N^-1 d *)
+Theorem C04_wtilde_data_vector_block : forall m (K : @kernel ROps) c, rectb m = true -> @convolver_init ROps m K = Ok c ->
+  forall (d s : list R) e P p, let n := length (unmasked m) in
+  length d = n -> length s = n -> (forall i, (i < n)%nat -> nth i s 0 <> 0) -> enc_ok e P -> (p < P)%nat ->
+  nth p (@dv_wtd ROps (@wt_data ROps (@native ROps m d) (@native ROps m s) K (unmasked m)) e P) 0 =
+  sumR (map (fun i => nth i d 0 * Bm e c n i p / (nth i s 0 * nth i s 0)) (seq 0 n)).
+Proof. exact wt_data_vector_block_full. Qed.
+(* InversionImagingWTilde.data_vector = InversionImagingMapping.data_vector, entry by entry, for every ordered list of mappers AND
+   function lists (all three branches: _data_vector_x1_mapper, _data_vector_multi_mapper, _data_vector_func_list_and_mapper) *)
+Theorem C04_data_vector_wtilde_eq_mapping : forall m (K : @kernel ROps) c, rectb m = true -> @convolver_init ROps m K = Ok c ->
+  forall objs (d s : list R) a, let n := length (unmasked m) in
+  (0 < n)%nat -> length d = n -> length s = n ->
+  (forall i, (i < n)%nat -> nth i s 0 <> 0) -> (forall o, In o objs -> wf_obj c n o) -> (a < tp objs)%nat ->
+  nth a (@D_wt ROps c m K objs d s) 0 = nth a (@D_mapping ROps c objs d s) 0.
+Proof. exact D_wt_eq_D_mapping_full. Qed.
+
+(* InversionImagingWTilde.mapped_reconstructed_data = InversionImagingMapping.mapped_reconstructed_data (equal lists) for every ordered
+   list of mappers and function lists and every reconstruction vector: blurring M r (convolve_no_blurring of the unique-mapping
+   product) is the same as (blurred M) r, object by object, summed in the same order *)
+Theorem C04_mapped_reconstructed_data_wtilde_eq_mapping : forall m (K : @kernel ROps) c, rectb m = true -> @convolver_init ROps m K = Ok c ->
+  forall objs (r : list R), let n := length (unmasked m) in
+  (forall o, In o objs -> wf_obj c n o) -> length r = tp objs ->
+  @mapped_wt ROps c objs n r = @mapped_mapping ROps c objs n r.
+Proof. exact mapped_wt_eq_mapped_mapping. Qed.
 
 (* ------------------------------------------------------------------ non-vacuity of the hypothesis sets *)
 (* hypotheses of C04_curvature_is_BT_Ninv_B: a 2x2 signed matrix, two different noise values, one unregularized parameter *)
@@ -267,6 +374,30 @@ Proof.
     + split; [cbn; lia|]. split; [|exact I]. cbn. split; [reflexivity|]. intros [|a] H; [reflexivity|lia].
 Qed.
 
+(* the hypotheses of the hypothesis-free theorems: a 3x4 mask with two adjacent unmasked pixels, a signed 3x3 kernel whose
+   footprint stays inside the frame, two different positive noise values, a function list followed by a regularized mapper *)
+Definition ex2_m : mask := [[true; true; true; true]; [true; false; false; true]; [true; true; true; true]].
+Definition ex2_K : @kernel ROps := [[1; 2; 3]; [4; 5; 6]; [7; 8; -9]].
+Definition ex2_c : @convolver ROps :=
+  Eval vm_compute in match @convolver_init ROps ex2_m ex2_K with Ok c => c | Raise _ => @Build_convolver ROps 0 [] [] [] end.
+Definition ex2_e : @enc ROps := @Build_enc ROps [[0%Z]; [0%Z]] [[1]; [1]] [1%nat; 1%nat].
+Definition ex2_objs : list (@lobj ROps) := [@LFunc ROps [[3]; [4]] (Some [[5]; [-6]]) 1 false; @LMapper ROps ex2_e [[1]; [1]] 1 true].
+Example ex_full_hyps :
+  let s := [1; 2] in let n := length (unmasked ex2_m) in
+  rectb ex2_m = true /\ @convolver_init ROps ex2_m ex2_K = Ok ex2_c /\ (0 < n)%nat /\ length s = n /\
+  (forall i, (i < n)%nat -> 0 < nth i s 0) /\ (forall o, In o ex2_objs -> wf_obj ex2_c n o).
+Proof.
+  cbv zeta. split; [reflexivity|]. split; [vm_compute; reflexivity|]. change (length (unmasked ex2_m)) with 2%nat.
+  split; [lia|]. split; [reflexivity|]. split.
+  - intros [|[|i]] H; cbn; try lra; lia.
+  - intros o [<-|[<-|[]]].
+    + split; [cbn; lia|]. split; [|exact I]. cbn. split; [reflexivity|]. intros [|[|a]] H; try reflexivity; lia.
+    + split; [cbn; lia|]. split; [apply (shape_convolve_matrix ex2_c [[1]; [1]])|].
+      split; [|split; [|repeat split]].
+      * intros [|[|d]] pw H; cbn in H; try (destruct H as [<-|[]]; cbn; lia). destruct d; contradiction.
+      * intros d p Hd Hp. assert (p = 0%nat) by lia. subst p. destruct d as [|[|d]]; [| |lia]; unfold E, hits; cbn; lra.
+Qed.
+
 Print Assumptions C04_data_vector_is_BT_Ninv_d.
 Print Assumptions C04_curvature_is_BT_Ninv_B.
 Print Assumptions C04_added_to_diag.
@@ -283,18 +414,31 @@ Print Assumptions C04_mapped_via_unique.
 Print Assumptions C04_mapped_via_matrix.
 Print Assumptions C04_blurred_mapping_matrix_is_operator_times_M.
 Print Assumptions C04_convolve_no_blurring_is_operator.
-Print Assumptions C04_wtilde_mapper_diagonal_block.
-Print Assumptions C04_wtilde_mapper_mapper_block.
+Print Assumptions C04_wtilde_mapper_diagonal_block_abstract.
+Print Assumptions C04_wtilde_mapper_mapper_block_abstract.
 Print Assumptions C04_wtilde_mapper_func_block.
 Print Assumptions C04_wtilde_func_func_block.
 Print Assumptions C04_operated_matrix_blocks_follow_object_order.
-Print Assumptions C04_wtilde_mirrored_is_normal_equations_partial.
-Print Assumptions C04_curvature_wtilde_eq_mapping_partial.
+Print Assumptions C04_wtilde_mirrored_is_normal_equations_abstract.
+Print Assumptions C04_curvature_wtilde_eq_mapping_abstract.
 Print Assumptions C04_F_wt_is_instance.
 Print Assumptions C04_curvature_mapping_blocks.
 Print Assumptions C04_curvature_mapping_symmetric.
 Print Assumptions C04_no_regularization_index_list.
 Print Assumptions C04_data_vector_mapping_blocks.
-Print Assumptions C04_wtilde_data_vector_block_partial.
-Print Assumptions C04_curvature_wtilde_symmetric_partial.
-Print Assumptions C04_data_vector_wtilde_eq_mapping_partial.
+Print Assumptions C04_wtilde_data_vector_block_abstract.
+Print Assumptions C04_curvature_wtilde_symmetric_abstract.
+Print Assumptions C04_data_vector_wtilde_eq_mapping_abstract.
+Print Assumptions C04_convolver_frames_ok.
+Print Assumptions C04_frame_operator_entries.
+Print Assumptions C04_w_tilde_data_is_CT_Ninv_d.
+Print Assumptions C04_w_tilde_curvature_value_is_CT_Ninv_C.
+Print Assumptions C04_w_tilde_curvature_is_CT_Ninv_C.
+Print Assumptions C04_wtilde_mapper_diagonal_block.
+Print Assumptions C04_wtilde_mapper_mapper_block.
+Print Assumptions C04_wtilde_mirrored_is_normal_equations.
+Print Assumptions C04_curvature_wtilde_eq_mapping.
+Print Assumptions C04_curvature_wtilde_symmetric.
+Print Assumptions C04_wtilde_data_vector_block.
+Print Assumptions C04_data_vector_wtilde_eq_mapping.
+Print Assumptions C04_mapped_reconstructed_data_wtilde_eq_mapping.
